@@ -76,6 +76,19 @@ def build_mesh(m):
         mesh = fem.Grid(*[np.asarray(x, dtype=float) for x in m["xi"]])
     elif gen == "Circle":
         mesh = fem.Circle(n=int(n[0] if isinstance(n, (list, tuple)) else n), radius=m.get("radius", 1.0))
+    elif gen == "LagrangeCell":
+        # one arbitrary-order Lagrange cell; node numbering = that of the element itself (VTK order for
+        # permute=True, plain tensor-grid order for permute=False)
+        el = fem.ArbitraryOrderLagrangeElement(order=m["order"], dim=m["dim"], permute=m.get("permute", True))
+        a_, b_ = np.asarray(m.get("a", [0.0] * m["dim"]), dtype=float), np.asarray(m["b"], dtype=float)
+        pts = a_ + (np.asarray(el.points, dtype=float) + 1.0) / 2.0 * (b_ - a_)
+        p_ = m.get("perturb")
+        if p_:
+            prng = np.random.default_rng(p_["seed"])
+            inner = np.all((np.abs(np.asarray(el.points)) < 1 - 1e-9), axis=1)
+            pts[inner] += p_["amp"] * (b_ - a_).min() / m["order"] * prng.uniform(-1, 1, (int(inner.sum()), m["dim"]))
+        cell_type = "VTK_LAGRANGE_QUADRILATERAL" if m["dim"] == 2 else "VTK_LAGRANGE_HEXAHEDRON"
+        return fem.Mesh(pts, np.arange(len(pts)).reshape(1, -1), cell_type)
     else:
         raise ValueError(gen)
     if m.get("roll") and mesh.cell_type in ("quad", "hexahedron"):
@@ -125,6 +138,11 @@ def build_mesh(m):
 
 def build_region(mesh, spec=None):
     spec = spec or {}
+    if mesh.cell_type.startswith("VTK_LAGRANGE"):
+        region = fem.RegionLagrange(mesh, order=spec["order"], dim=mesh.dim, permute=spec.get("permute", True))
+        if np.any(region.dV <= 0):
+            raise Discard("invalid-mesh")
+        return region
     name = spec.get("name") or REGION_BY_CELLTYPE[mesh.cell_type]
     kw = {}
     if spec.get("uniform"):
